@@ -48,22 +48,28 @@ def p1():
     return _build(1, None)
 
 
+def _parent(level):
+    """the partition level merges onto: CHAIN[level-1]["par"] if given (0: none), else the level below"""
+    par = CHAIN[level - 1].get("par", level - 1)
+    return LEVELS[par]() if par else None
+
+
 @m.memento_function(cluster="vp", version="1")
 def p2():
     log("Body", "p", 2)
-    return _build(2, p1())
+    return _build(2, _parent(2))
 
 
 @m.memento_function(cluster="vp", version="1")
 def p3():
     log("Body", "p", 3)
-    return _build(3, p2())
+    return _build(3, _parent(3))
 
 
 @m.memento_function(cluster="vp", version="1")
 def p4():
     log("Body", "p", 4)
-    return _build(4, p3())
+    return _build(4, _parent(4))
 
 
 LEVELS = {1: p1, 2: p2, 3: p3, 4: p4}
